@@ -202,6 +202,9 @@ def scene(draw, max_spheres=3, sphere_sphere=True, force_free=None, frictionless
         else:
             v = [draw(gen.f(-1.5, 1.5)), draw(gen.f(-1, 1)), draw(gen.f(-1.5, 0.5)) if z > r else 0.0]
         s = {"radius": r, "mass": m, "rigid": rigid, "r": pos, "v": v,
+             # a ball whose mass distribution is not uniform: principal inertias differ, random initial orientation
+             "inertia": [draw(gen.f(0.15, 0.6)) for _ in range(3)] if rigid and not force_free and draw(st.integers(0, 2)) == 0 else None,
+             "P": draw(gen.unit_quat()) if rigid else None,
              "omega": [draw(gen.f(-5, 5)) for _ in range(3)] if rigid and draw(st.booleans()) else [0.0] * 3,
              "mu": 0.0 if frictionless else draw(st.sampled_from([0.0, 0.1, 0.3, 0.6, 1.0])),
              "e_N": e_common if force_free else draw(st.sampled_from([0.0, 0.0, 0.5, 0.8, 1.0]))}
@@ -235,8 +238,11 @@ def build_scene(spec, t0=0.0, opts=None, consistent=True):
     bodies, contacts = [], []
     for i, s in enumerate(spec["spheres"]):
         if s["rigid"]:
-            th = 0.4 * s["mass"] * s["radius"] ** 2
-            b = RigidBody(s["mass"], th * np.eye(3), q0=np.array(list(s["r"]) + [1.0, 0, 0, 0], dtype=float),
+            th = 0.4 * s["mass"] * s["radius"] ** 2 * np.eye(3)
+            if s.get("inertia"):
+                th = np.diag(s["inertia"]) * s["mass"] * s["radius"] ** 2
+            P0 = s.get("P") or [1.0, 0.0, 0.0, 0.0]
+            b = RigidBody(s["mass"], th, q0=np.array(list(s["r"]) + list(P0), dtype=float),
                           u0=np.array(list(s["v"]) + list(s["omega"]), dtype=float), name=f"sphere{i}")
         else:
             b = PointMass(s["mass"], q0=np.array(s["r"], dtype=float), u0=np.array(s["v"], dtype=float), name=f"sphere{i}")
@@ -256,7 +262,8 @@ def build_scene(spec, t0=0.0, opts=None, consistent=True):
         contacts.append(c)
     with quiet():
         if consistent:
-            system.assemble(options=opts or options())
+            # the fixed-point loop of the consistency solve stalls near 6e-8 for some scenes; 1e-7 is ample here
+            system.assemble(options=opts or options(fixed_point_atol=1e-7))
         else:
             sysbuild.assemble(system)
     return system, {"bodies": bodies, "contacts": contacts}
